@@ -40,7 +40,7 @@ RULE = (
 )
 ASSUMPTIONS = ["contradictory spellings (DISABLED false with DISABLE true) are not generated", "AllOptions is excluded (it would expose the switch keys as values)"]
 FLOORS = {"steps": (5000, 60000), "cache_off_steps": (2500, 30000), "effects_off_steps": (2000, 25000), "logging_off_steps": (2000, 25000),
-          "log_records_matched": (2500, 40000), "nocache_graph_steps": (200, 4000)}
+          "log_records_matched": (2500, 40000), "nocache_graph_steps": (200, 4000), "logging_context_outside_cache_context": (100, 1500)}
 COVER = {"mode_combinations": [f"{c}/{e}/{l}" for c in CACHE_MODES for e in EFFECT_MODES for l in LOG_MODES]}
 SHARDS_QUICK = 4
 FEATURES = {"allopts": False, "domains": False, "preset_templates": False}
@@ -147,11 +147,16 @@ def run_history(ctx, program, history, modes, tag, nocache_graph=False):
             ctxs = []
             try:
                 # each context derives from the runtime current when it is created: create and enter one by one
+                makers = []
                 if cm == "context":
-                    ctxs.append(labrea.cache.disabled())
-                    ctxs[-1].__enter__()
+                    makers.append(labrea.cache.disabled)
                 if lm == "context":
-                    ctxs.append(labrea.logging.disabled())
+                    makers.append(labrea.logging.disabled)
+                if len(makers) == 2 and (step + len(history)) % 2:
+                    makers.reverse()  # logging context outside, cache context inside
+                    ctx.count("logging_context_outside_cache_context")
+                for mk in makers:
+                    ctxs.append(mk())
                     ctxs[-1].__enter__()
                 with Tap(on_event=on_event, keep=False):
                     got = observe(G.root.evaluate, o2)
